@@ -511,7 +511,7 @@ func runKeyCase(c KeyCase, rec *h.Rec) error {
 		return h.Failf("C18:keys:NewEvaluator:rejects-generated-keys", "%v", err)
 	}
 	// non-trivial: anything that is not the single configuration of the repository test (T45/eq, default options, eph 32)
-	if c.Cfg.optionClass() != (Cfg{Base: "T45", Res: "eq", Eph: 32, H1: 192, K: -1, Mod1Deg: -1, DblAngle: -1, InvDeg: -1}).optionClass() || c.Cfg.LogSlots != c.Cfg.LogN-1 {
+	if c.Cfg.optionClass() != (Cfg{Base: "T45", Res: "eq", Eph: 32, H1: 192, K: -1, Mod1Deg: -1, DblAngle: -1, InvDeg: -1, EvalScale: -1}).optionClass() || c.Cfg.LogSlots != c.Cfg.LogN-1 {
 		rec.NonTrivial(fmt.Sprintf("%s/logN%d/slots-%d/nq%d/eph%d", c.Cfg.optionClass(), c.Cfg.LogN, c.Cfg.LogN-1-c.Cfg.LogSlots, c.Cfg.NQ, c.Cfg.Eph))
 	}
 	return nil
